@@ -13,7 +13,8 @@ import filters_lib as FL
 
 THEOREMS = ['C06_wrap_is_code', 'anchor_wrap', 'search_anchored_is_fullmatch', 'C06_matcher_correct',
             'C06_fullmatch_is_whole', 'C06_verdict', 'C06_rule', 'C06_takes_part', 'C06_both_sides',
-            'C06_listed_iff', 'C06_hidden', 'C06_same_on_both_trees', 'C06_old_wrap_escapes']
+            'C06_listed_iff', 'C06_walk_is_filter', 'C06_hidden', 'C06_same_on_both_trees', 'C06_search_is_somewhere',
+            'C06_old_wrap_escapes', 'C06_old_wrap_refuted']
 
 
 def hx(s):
@@ -164,6 +165,79 @@ E2E_FILTERS = [
 ]
 
 
+def tree_to_json(tree):
+    if tree is None:
+        return None
+    return {rel: ({'k': 'file', 'data_hex': n['data'].hex(), 'mtime_ns': n['mtime_ns']} if n['k'] == 'file' else {'k': n['k']}) for rel, n in tree.items()}
+
+
+def tree_from_json(j):
+    if j is None:
+        return None
+    return {rel: ({'k': 'file', 'data': bytes.fromhex(n['data_hex']), 'mtime_ns': n['mtime_ns']} if n['k'] == 'file' else {'k': n['k']}) for rel, n in j.items()}
+
+
+def e2e_one(run, binary, jbin, tmp, fake, idx, filters, pyf, place, src, dest):
+    """One run of the real CLI. Returns [(what, replay)] for violations of the property."""
+    found = []
+    mode = 'empty' if dest is None else 'derived'
+    d = os.path.join(tmp, 'e%d' % idx)
+    os.makedirs(d)
+    sroot, droot = os.path.join(d, 'src'), os.path.join(d, 'dest')
+    e2e.build_tree(sroot, src)
+    if dest is not None:
+        e2e.build_tree(droot, dest)
+    s0, d0 = e2e.snapshot(sroot), e2e.snapshot(droot)
+    args = [('localhost:' if place[0] == 'R' else '') + sroot + '/', ('localhost:' if place[1] == 'R' else '') + droot + '/']
+    for f in filters:
+        args += ['--filter', f]
+    r = e2e.run_cli(binary, args, fake_ssh=fake if 'R' in place else None, timeout=120)
+    s1, d1 = e2e.snapshot(sroot), e2e.snapshot(droot)
+    rep = {'driver': 'e2e', 'filters': filters, 'python_patterns': [x[1] for x in pyf], 'placement': place,
+           'src_tree': tree_to_json(src), 'dest_tree': tree_to_json(dest), 'exit': r['exit'], 'stderr': r['stderr'][-400:]}
+    run.count('e2e:' + place); run.count('e2e-exit:%s' % r['exit']); run.count('e2e-dest:' + mode)
+    part = {rel: FL.takes_part(pyf, rel) for rel in set(s0) | set(d0) | set(d1) if rel}
+    bad = None
+    if r['timed_out'] or r['exit'] not in e2e.DOCUMENTED_EXITS:
+        bad = 'run did not end with a documented exit status (exit %s)' % r['exit']
+    elif s1 != s0:
+        bad = 'the source changed'
+    else:
+        for rel, tp in sorted(part.items()):
+            if tp is None:
+                continue
+            if not tp and d1.get(rel) != d0.get(rel):
+                bad = 'entry %r does not take part but the destination changed there: %r -> %r' % (rel, d0.get(rel), d1.get(rel)); break
+            if tp and r['exit'] == 0:
+                if rel in s0 and (rel not in d1 or d1[rel][:3] != s0[rel][:3]):
+                    bad = 'entry %r takes part, exit 0, but the destination has %r instead of %r' % (rel, d1.get(rel), s0[rel]); break
+                if rel not in s0 and rel in d1:
+                    bad = 'destination-only entry %r takes part, exit 0, but it is still there' % rel; break
+    nexcl = sum(1 for v in part.values() if v is False)
+    run.case(('e2e', filters, sorted(src), sorted(dest) if dest else None, place), nexcl > 0 and nexcl < len(part),
+             sample={'case': {k: rep[k] for k in ('driver', 'filters', 'placement', 'exit')}, 'excluded': nexcl, 'entries': len(part)})
+    run.traces_validated += 1
+    if bad:
+        found.append(('e2e %s %r: %s' % (place, filters, bad), rep))
+    # the model's walk of the source tree = what the implementation listed (visible when the destination starts empty)
+    if jbin and not bad:
+        ents = sorted((rel, 'd' if n_['k'] == 'dir' else 'f') for rel, n_ in src.items() if rel)
+        wl = 'W %d %s %d %s' % (len(filters), ' '.join(hx(f) for f in filters), len(ents), ' '.join('%s %s' % (hx(a), b) for a, b in ents))
+        ans = vlib.judge(jbin, [wl])[0]
+        if ans.startswith('LISTED'):
+            rest = ans[len('LISTED'):].strip()
+            listed = set(unhx(x) for x in rest.split(',')) if rest else set()
+            want = {rel for rel in s0 if rel and part.get(rel)}
+            small = {k: rep[k] for k in ('driver', 'filters', 'placement', 'exit')}
+            if all(part.get(rel) is not None for rel in s0 if rel) and listed != want:
+                run.broke('correspondence', 'walk-vs-python', json.dumps(dict(small, model_listed=sorted(listed), python=sorted(want)))[:1500])
+            if mode == 'empty' and r['exit'] == 0 and set(k for k in d1 if k) != listed:
+                run.broke('correspondence', 'walk-vs-cli', json.dumps(dict(small, model_listed=sorted(listed), created=sorted(d1)))[:1500])
+            run.count('e2e-walk-compared')
+    shutil.rmtree(d, ignore_errors=True)
+    return found
+
+
 def e2e_cases(run, binary, jbin, tmp, tier):
     rng = run.rng
     found = []
@@ -185,66 +259,17 @@ def e2e_cases(run, binary, jbin, tmp, tier):
         if mode == 'derived':
             dest = {'': {'k': 'dir'}}
             for rel, node in src.items():          # a stale copy of part of the source ...
-                if rel and all(p in dest for p in [rel.rsplit('/', 1)[0]] if '/' in rel) and rng.random() < 0.6:
+                parent = rel.rsplit('/', 1)[0] if '/' in rel else ''
+                if rel and parent in dest and rng.random() < 0.6:
                     dest[rel] = dict(node)
                     if node['k'] == 'file':
                         dest[rel] = {'k': 'file', 'data': b'old:' + node['data'], 'mtime_ns': 1_600_000_000_000_000_000}
             extra = FL.gen_tree(rng, depth=2, width=3, mtime=1_600_000_000_000_000_000, fill=2)   # ... plus entries of its own
             for rel, node in extra.items():
-                if rel and rel not in dest and ('/' not in rel or (rel.rsplit('/', 1)[0] in dest and dest[rel.rsplit('/', 1)[0]]['k'] == 'dir')):
+                parent = rel.rsplit('/', 1)[0] if '/' in rel else ''
+                if rel and rel not in dest and parent in dest and dest[parent]['k'] == 'dir':
                     dest[rel] = node
-        d = os.path.join(tmp, 'e%d' % i)
-        os.makedirs(d)
-        sroot, droot = os.path.join(d, 'src'), os.path.join(d, 'dest')
-        e2e.build_tree(sroot, src)
-        if dest is not None:
-            e2e.build_tree(droot, dest)
-        s0, d0 = e2e.snapshot(sroot), e2e.snapshot(droot)
-        args = [('localhost:' if place[0] == 'R' else '') + sroot + '/', ('localhost:' if place[1] == 'R' else '') + droot + '/']
-        for f in filters:
-            args += ['--filter', f]
-        r = e2e.run_cli(binary, args, fake_ssh=fake if 'R' in place else None, timeout=120)
-        s1, d1 = e2e.snapshot(sroot), e2e.snapshot(droot)
-        rep = {'driver': 'e2e', 'filters': filters, 'placement': place, 'src': sorted(src), 'dest': sorted(dest) if dest else None,
-               'src_tree': {k: v['k'] for k, v in src.items()}, 'dest_tree': {k: v['k'] for k, v in dest.items()} if dest else None,
-               'exit': r['exit'], 'stderr': r['stderr'][-400:]}
-        run.count('e2e:' + place); run.count('e2e-exit:%s' % r['exit']); run.count('e2e-dest:' + mode)
-        part = {rel: FL.takes_part(pyf, rel) for rel in set(s0) | set(d0) | set(d1) if rel}
-        bad = None
-        if r['timed_out'] or r['exit'] not in e2e.DOCUMENTED_EXITS:
-            bad = 'run did not end with a documented exit status (exit %s)' % r['exit']
-        elif s1 != s0:
-            bad = 'the source changed'
-        else:
-            for rel, tp in sorted(part.items()):
-                if tp is None:
-                    continue
-                if not tp and d1.get(rel) != d0.get(rel):
-                    bad = 'entry %r does not take part but the destination changed there: %r -> %r' % (rel, d0.get(rel), d1.get(rel)); break
-                if tp and r['exit'] == 0:
-                    if rel in s0 and (rel not in d1 or d1[rel][:3] != s0[rel][:3]):
-                        bad = 'entry %r takes part, exit 0, but the destination has %r instead of %r' % (rel, d1.get(rel), s0[rel]); break
-                    if rel not in s0 and rel in d1:
-                        bad = 'destination-only entry %r takes part, exit 0, but it is still there' % rel; break
-        nexcl = sum(1 for v in part.values() if v is False)
-        run.case(('e2e', filters, sorted(src), sorted(dest) if dest else None, place), nexcl > 0 and nexcl < len(part),
-                 sample={'case': {k: rep[k] for k in ('driver', 'filters', 'placement', 'exit')}, 'excluded': nexcl, 'entries': len(part)})
-        run.traces_validated += 1
-        if bad:
-            found.append(('e2e %s %r: %s' % (place, filters, bad), rep))
-        # the model's walk of the source tree = what the implementation listed (visible when the destination starts empty)
-        if jbin and not bad:
-            ents = sorted((rel, 'd' if n_['k'] == 'dir' else 'f') for rel, n_ in src.items() if rel)
-            wl = 'W %d %s %d %s' % (len(filters), ' '.join(hx(f) for f in filters), len(ents), ' '.join('%s %s' % (hx(a), b) for a, b in ents))
-            ans = vlib.judge(jbin, [wl])[0]
-            if ans.startswith('LISTED'):
-                listed = set(unhx(x) for x in ans.split(' ', 1)[1].split(',')) if ' ' in ans and ans.split(' ', 1)[1] else set()
-                want = {rel for rel in s0 if rel and part.get(rel)}
-                if all(part.get(rel) is not None for rel in s0 if rel) and listed != want:
-                    run.broke('correspondence', 'walk-vs-python', json.dumps(dict(rep, model_listed=sorted(listed), python=sorted(want)))[:1500])
-                if mode == 'empty' and r['exit'] == 0 and set(k for k in d1 if k) != listed:
-                    run.broke('correspondence', 'walk-vs-cli', json.dumps(dict(rep, model_listed=sorted(listed), created=sorted(d1)))[:1500])
-                run.count('e2e-walk-compared')
+        found += e2e_one(run, binary, jbin, tmp, fake, i, filters, pyf, place, src, dest)
     return found
 
 
@@ -266,7 +291,7 @@ def search_family(run, binary):
     return found[0] if found else None
 
 
-def check(run, only=None):
+def check(run, only=None, only_e2e=None):
     run.trusted = list(vlib.COMMON_TRUSTED) + [
         'modelled, not verified: the regex crate (1.7.1 / regex-syntax 0.6.28) - its parser and matcher are represented by Model/RegexParse.v and Model/Regex.v for the subset and compared on every run; outside the subset and for non-ASCII text only the python oracle speaks',
         'python 3.11 re (re.ASCII) as the independent reading of "the regular expression matches the entire path"',
@@ -292,12 +317,19 @@ def check(run, only=None):
                 cases.append(case_from_json(d))
         if only is not None:
             cases = [only]
+        elif only_e2e is not None:
+            cases = []
         else:
             cases += gen_cases(run, run.tier)
         found = []
         for k in range(0, len(cases), 500):
             found += eval_cases(run, cases[k:k + 500], binary, jbin)
-        if only is None:
+        if only_e2e is not None:
+            r = only_e2e
+            found += e2e_one(run, binary, jbin, tmp, e2e.fake_ssh_dir(tmp), 0, r['filters'],
+                             [(f[0], py) for f, py in zip(r['filters'], r.get('python_patterns') or [f[1:] for f in r['filters']])],
+                             r.get('placement', 'LL'), tree_from_json(r['src_tree']), tree_from_json(r.get('dest_tree')))
+        elif only is None:
             found += e2e_cases(run, binary, jbin, tmp, run.tier)
         for what, rep in found[:20]:
             run.fail(what, rep)
@@ -311,4 +343,6 @@ def replay(run, path):
     print(json.dumps(r, indent=1)[:3000])
     if r.get('driver') == 'unit:filters':
         return check(run, only=case_from_json(r))
+    if r.get('driver') == 'e2e' and r.get('src_tree'):
+        return check(run, only_e2e=r)
     return check(run)
